@@ -22,12 +22,16 @@ import (
 	"github.com/openbao/openbao/sdk/v2/logical"
 	"github.com/openbao/openbao/sdk/v2/physical"
 	"github.com/openbao/openbao/sdk/v2/physical/inmem"
+	"github.com/openbao/openbao/v2/internal/audit"
+	"github.com/openbao/openbao/v2/internal/command/server"
+	"github.com/openbao/openbao/v2/internal/helper/configutil"
 	"github.com/openbao/openbao/v2/internal/helper/namespace"
 	"github.com/openbao/openbao/v2/internal/vault"
 )
 
 type Options struct {
 	NonTxn bool // non-transactional storage
+	Audit  map[string]audit.Factory
 	Extra  map[string]logical.Factory
 	ExtraCred map[string]logical.Factory
 }
@@ -80,7 +84,12 @@ func coreConfig(phys physical.Backend, opt Options, rec *RecState) *vault.CoreCo
 	for k, v := range opt.ExtraCred {
 		cb[k] = v
 	}
+	raw := new(server.Config)
+	raw.SharedConfig = &configutil.SharedConfig{}
+	raw.UnsafeAllowAPIAuditCreation = true
 	return &vault.CoreConfig{
+		RawConfig:          raw,
+		AuditBackends:      opt.Audit,
 		Physical:           phys,
 		LogicalBackends:    lb,
 		CredentialBackends: cb,
